@@ -333,6 +333,10 @@ def compare_dumps(oracle: str, module: str, a: dict, b: dict, fmt: str, findings
             continue
         cls = c11_walk.owner_class(a, b, k)
         tail = c11_walk.attr_tail(k)
+        if "@" in k and "." not in k.rsplit("@", 1)[-1] and not k.endswith("@node"):
+            cls = "SymbolTableNode"  # an attribute of the symbol table entry itself
+        elif k.startswith("@"):
+            cls = "MypyFile"
         f = _finding(oracle, cls, tail, module, k, x, y, fmt)
         if iface and tail == "info" and "_AttrsAttributes__@node.names/" in k:
             # the attrs plugin points Var.info of the entries of its synthetic `__C_AttrsAttributes__` class at
@@ -581,7 +585,7 @@ def evaluate(case: dict, runner) -> dict:
                 out["nontrivial_mods"].append(m)
             rj.pop("generic", None)
             rf.pop("generic", None)
-        out["client_lines"] = sum(len(_client_msgs(F["A"])) for _ in (0,))
+        out["client_lines"] = len(_client_msgs(F["A"]))
         out["lib_errors"] = F["A"].get("lib_errors", 0)
     except Exception:
         out["status"] = "harness"
@@ -777,11 +781,16 @@ def client_findings(which: str, a: list[str], b: list[str], case: dict, fmt: str
 
 
 def crash_instance(err: str) -> str:
-    """Last line of a traceback (exception type and message) as the instance of a crash finding."""
-    lines = [l for l in err.strip().splitlines() if l.strip()]
+    """Exception type and message of a traceback (last such line) as the instance of a crash finding."""
+    import re
+
+    lines = [l.rstrip() for l in err.strip().splitlines() if l.strip()]
     for l in reversed(lines):
-        if l and not l.startswith(" ") and ":" in l and not l.startswith(("Traceback", "Please report", "version:", "http")):
+        if re.match(r"^[A-Za-z_][\w.]*(Error|Exception|Interrupt|Exit|Warning)\b", l) or l.startswith("AssertionError"):
             return l.strip()[:200]
+    for l in reversed(lines):
+        if ": error: INTERNAL ERROR" in l:
+            return "INTERNAL ERROR"
     return lines[-1][:200] if lines else "?"
 
 
@@ -975,6 +984,11 @@ def describe(f: dict) -> str:
 
 def judge(run: Run, res: dict, case: dict | None, confirm: bool = True) -> None:
     """Account for one evaluated case; confirm and report its findings."""
+    if res.get("status") == "deadline":
+        run.label("skipped_after_wall_clock_guard")
+        if not run.inconclusive:
+            run.inconclusive.append("wall-clock guard reached; remaining cases not run (inconclusive, not a violation)")
+        return
     run.count()
     for k, v in res.get("labels", {}).items():
         run.label(k, v)
@@ -1024,11 +1038,12 @@ def confirm_pending(run: Run) -> None:
     for case, items in pend:
         keep = []
         for s, inst, f in items:
-            per_sig[s] = per_sig.get(s, 0) + 1
-            if per_sig[s] <= 3:
+            key = s.split(":")[0] if "|symbol-missing:" in s else s  # one budget for all missing symbols of a kind
+            per_sig[key] = per_sig.get(key, 0) + 1
+            if per_sig[key] <= 3:
                 keep.append((s, inst, f))
             else:
-                run.label("further_cases_same_signature:" + s)
+                run.label("further_cases_same_signature:" + key)
         if keep:
             todo.append((case, keep))
     if not todo:
@@ -1165,10 +1180,11 @@ def _run(run: Run) -> None:
         run.sample({"kind": k, "name": case["name"], "modules": case["mods"][:8], "files": files, "modules_checked": len(res.get("mods_checked", [])), "paths_compared": res.get("paths")})
 
     # order: long stdlib groups first so that the pool tail is short
-    work = [("case", c) for c in std_cases] + [("batch", b) for b in batches] + [("case", c) for c in cc]
+    deadline = run.t0 + t_budget
+    work = [("case", c, deadline) for c in std_cases] + [("batch", b, deadline) for b in batches] + [("case", c, deadline) for c in cc]
     results = pmap(_dispatch, work, workers=min(NPROC, 16), recycle=25)
     stop = False
-    for (kind, item), res in zip(work, results):
+    for (kind, item, _), res in zip(work, results):
         if kind == "batch":
             for r in res:
                 for t in r.get("tags", []):
@@ -1231,7 +1247,13 @@ def _run(run: Run) -> None:
 
 
 def _dispatch(item):
-    kind, x = item
+    """Pool task. Items carry the run's wall-clock deadline: ProcessPoolExecutor.map submits a whole generation at
+    once, so the only way to really stop after the guard has tripped is that late tasks return immediately."""
+    kind, x = item[0], item[1]
+    deadline = item[2] if len(item) > 2 else None
+    if deadline is not None and time.time() > deadline:
+        skipped = {"name": "skipped", "kind": "skipped", "status": "deadline", "findings": [], "labels": {}, "classes": {}, "flagsets": {}, "mods_checked": [], "nontrivial_mods": [], "paths": 0}
+        return [skipped] if kind == "batch" else skipped
     if kind == "batch":
         return gen_batch(x)
     return eval_case(x)
